@@ -80,3 +80,17 @@ Theorem C13_nonvacuous :
   go ([RowQ [97]%N] ++ [RowEnd KGroup]) 2 [] [] = PErr (UnmatchedEnd 3).
 Proof. repeat split; vm_compute; reflexivity. Qed.
 Print Assumptions C13_nonvacuous.
+
+(* cell text (clean_text_values): white space around a survey cell and extra U+0020 next to a U+0020 inside it do not matter;
+   smart and straight quotes are interchangeable; collapsing and quote replacement are idempotent *)
+Require Import PX.Model.CellText PX.Proofs.CellText.
+Theorem C13_cell_text :
+  (forall c s, py_space c = true -> clean_cell true (c :: s) = clean_cell true s /\ clean_cell true (s ++ [c]) = clean_cell true s) /\
+  (forall a b, collapse (a ++ 32 :: 32 :: b) = collapse (a ++ 32 :: b))%N /\
+  (forall a b, map smart a = map smart b -> clean_cell true a = clean_cell true b /\ clean_cell false a = clean_cell false b) /\
+  (forall s, collapse (collapse s) = collapse s) /\ (forall s, replace_smart (replace_smart s) = replace_smart s).
+Proof.
+  exact (conj whitespace_noise (conj collapse_double (conj (fun a b H => conj (quotes_interchangeable_stripped a b H) (quotes_interchangeable a b H))
+        (conj collapse_idempotent replace_smart_idempotent)))).
+Qed.
+Print Assumptions C13_cell_text.
